@@ -19,6 +19,7 @@ type DevPort struct {
 	BadPing     []byte // if set, answer ping with these bytes
 	BadId       []byte // if set, answer the id query with these bytes
 	SilentAfter int    // if >= 0: stop answering Get commands after this many answered Gets
+	DieMidFrame bool   // with SilentAfter: the first unanswered Get still gets the first bytes of its answer
 	OnGet       func(addr uint16) // hook called for every Get frame received (e.g. to cancel a context)
 	queue       []byte
 	Frames      [][]byte // every frame written by the driver
@@ -61,6 +62,10 @@ func (d *DevPort) Write(b []byte) (int, error) {
 			if a, ok := d.Regs[addr]; ok && (d.SilentAfter < 0 || d.answered < d.SilentAfter) {
 				d.answered++
 				d.queue = append(d.queue, simGet(addr, a.Flag, a.Payload)...)
+			} else if ok && d.DieMidFrame && d.answered == d.SilentAfter {
+				d.answered++ // the device dies in the middle of this frame
+				f := simGet(addr, a.Flag, a.Payload)
+				d.queue = append(d.queue, f[:len(f)/2]...)
 			}
 		}
 	}
